@@ -44,17 +44,19 @@ impl Outcome {
     fn generate_expectation(&self, line: &[u8], first: bool) -> String {
         let content = line.trim_newlines();
         let text = self.escaping.escaped_expectation(content);
-        if self.escaping.has_unprintable(content) {
-            // escaped expectations disregard the newline
-            return text;
-        }
+        let escaped = self.escaping.has_unprintable(content);
         if text.starts_with("$ ") || (first && text.starts_with("> ")) {
             // would be read as (part of) the shell expression
-            return format!(
-                "\\x{:02x}{} (escaped)",
-                content[0],
-                text[1..].replace('\\', "\\\\")
-            );
+            let remainder = if escaped {
+                text[1..].to_string()
+            } else {
+                format!("{} (escaped)", text[1..].replace('\\', "\\\\"))
+            };
+            return format!("\\x{:02x}{}", content[0], remainder);
+        }
+        if escaped {
+            // escaped expectations disregard the newline
+            return text;
         }
         let is_exit_code = text.len() > 2
             && text.starts_with('[')
